@@ -77,6 +77,12 @@ def inst_from_tlc(j):
     return Inst(nodes, nbrs, T, tab, j['tr'], linked, skip)
 
 
+LABELS = {'id': (lambda n: n, lambda l: l),
+          'zero': (lambda n: n - 1, lambda l: l + 1),            # 0-based labels: one label is falsy
+          'str': (lambda n: 'abcdefghij'[n - 1], lambda l: 'abcdefghij'.index(l) + 1),
+          'neg': (lambda n: 3 - 2 * n, lambda l: (3 - l) // 2)}   # 1, -1, -3, ...
+
+
 def nloc(n): return (float(n), 0.0)
 
 
@@ -95,9 +101,10 @@ def make_classes():
     from leuvenmapmatching.matcher.base import BaseMatcher
 
     class TableMap(BaseMap):
-        def __init__(self, inst):
+        def __init__(self, inst, scheme='id'):
             super().__init__("tbl", use_latlon=False)
             self.inst = inst
+            self.L, self.U = LABELS[scheme]
             self.distance = self._distance
             self.distance_point_to_segment = self._dps
             self.distance_segment_to_segment = self._dss
@@ -122,44 +129,45 @@ def make_classes():
             return (self.inst.dN[(e, t)], (0.5, 0.5), (0.5, 0.5), 0.5, 0.5)
 
         def bb(self): return None
-        def labels(self): return list(self.inst.nodes)
+        def labels(self): return [self.L(n) for n in self.inst.nodes]
         def size(self): return len(self.inst.nodes)
-        def node_coordinates(self, k): return nloc(k)
-        def all_nodes(self, bb=None): return [(k, nloc(k)) for k in self.inst.nodes]
-        def all_edges(self, bb=None): return [(a, nloc(a), b, nloc(b)) for a, b in self.inst.edges]
+        def node_coordinates(self, k): return nloc(self.U(k))
+        def all_nodes(self, bb=None): return [(self.L(k), nloc(k)) for k in self.inst.nodes]
+        def all_edges(self, bb=None): return [(self.L(a), nloc(a), self.L(b), nloc(b)) for a, b in self.inst.edges]
 
         def nodes_closeto(self, loc, max_dist=None, max_elmt=None):
             t = int(loc[0] - OBS0)
             res = [(self.inst.dE[((n,), t)], n, nloc(n)) for n in self.inst.nodes
                    if ((n,), t) in self.inst.dE and self.inst.dE[((n,), t)] < max_dist]
             res.sort()
-            return res
+            return [(d, self.L(n), loc) for d, n, loc in res]
 
         def edges_closeto(self, loc, max_dist=None, max_elmt=None):
             t = int(loc[0] - OBS0)
             res = [(self.inst.dE[(e, t)], e[0], nloc(e[0]), e[1], nloc(e[1]), (0.5, 0.5), 0.5)
                    for e in self.inst.edges if self.inst.dE[(e, t)] < max_dist]
             res.sort()
-            return res
+            return [(d, self.L(a), la, self.L(b), lb, pi, ti) for d, a, la, b, lb, pi, ti in res]
 
         def nodes_nbrto(self, node):
-            return [(n, nloc(n)) for n in self.inst.nbrs.get(node, [])]
+            return [(self.L(n), nloc(n)) for n in self.inst.nbrs.get(self.U(node), [])]
 
         def edges_nbrto(self, edge):
-            res = [(edge[1], nloc(edge[1]), n, nloc(n)) for n in self.inst.nbrs.get(edge[1], [])]
-            for (a, b) in self.inst.linked.get(tuple(edge), []):
-                res.append((a, nloc(a), b, nloc(b)))
+            e = (self.U(edge[0]), self.U(edge[1]))
+            res = [(edge[1], nloc(e[1]), self.L(n), nloc(n)) for n in self.inst.nbrs.get(e[1], [])]
+            for (a, b) in self.inst.linked.get(e, []):
+                res.append((self.L(a), nloc(a), self.L(b), nloc(b)))
             return res
 
     class TableMatcher(BaseMatcher):
-        def __init__(self, inst, second_order=False, **kw):
-            super().__init__(TableMap(inst), **kw)
+        def __init__(self, inst, second_order=False, scheme='id', **kw):
+            super().__init__(TableMap(inst, scheme), **kw)
             self.inst = inst
             self.second_order = second_order
+            self.U = LABELS[scheme][1]
 
-        @staticmethod
-        def _st(seg):
-            return (seg.l1, seg.l2) if seg.l2 is not None else (seg.l1,)
+        def _st(self, seg):
+            return (self.U(seg.l1), self.U(seg.l2)) if seg.l2 is not None else (self.U(seg.l1),)
 
         def logprob_trans(self, prev_m, edge_m, edge_o, is_prev_ne=False, is_next_ne=False):
             a, b = self._st(prev_m.edge_m), self._st(edge_m)
@@ -197,7 +205,7 @@ def mk_matcher(inst, cf):
               max_dist_init=None if cf['maxDistInit'] >= INF else float(cf['maxDistInit']),
               non_emitting_states=bool(cf['ne']), max_lattice_width=(cf['W'] or None),
               only_edges=bool(cf['onlyEdges']))
-    m = TableMatcher(inst, second_order=bool(cf.get('secondOrder', False)), **kw)
+    m = TableMatcher(inst, second_order=bool(cf.get('secondOrder', False)), scheme=cf.get('labels', 'id'), **kw)
     if cf['maxDist'] >= INF and cf['maxDistInit'] < INF:
         pass
     m.ne_length_factor_log = float(cf.get('neLen', -1))
@@ -208,7 +216,8 @@ def mk_matcher(inst, cf):
 
 
 def st_of(x):
-    return [x.edge_m.l1, x.edge_m.l2] if x.edge_m.l2 is not None else [x.edge_m.l1]
+    U = x.matcher.U
+    return [U(x.edge_m.l1), U(x.edge_m.l2)] if x.edge_m.l2 is not None else [U(x.edge_m.l1)]
 
 
 def key_of(x):
@@ -238,6 +247,24 @@ def proj_entry(x):
             'dist': iv(x.dist_obs)}
 
 
+def dangling(m):
+    """entries whose predecessor OBJECT is not the object the lattice stores under the predecessor's key"""
+    out = []
+    if not m.lattice:
+        return out
+    for c in range(len(m.lattice)):
+        for L in m.lattice[c].o:
+            for x in L.values():
+                for p in x.prev:
+                    col = m.lattice.get(p.obs)
+                    stored = None
+                    if col is not None and p.obs_ne < len(col.o):
+                        stored = col.o[p.obs_ne].get(p.key)
+                    if stored is not p:
+                        out.append([key_of(x), key_of(p)])
+    return out
+
+
 def proj_lattice(m):
     out = []
     if not m.lattice:
@@ -264,7 +291,7 @@ def run_history(inst, cf, ops, unique=False, snapshots=True, matcher=None):
                 states, idx = m.increase_max_lattice_width(arg, unique=unique)
             else:
                 raise common.MachineryError('unknown op ' + op)
-            o['states'] = None if states is None else [list(s) if isinstance(s, tuple) else [s] for s in states]
+            o['states'] = None if states is None else [[m.U(s[0]), m.U(s[1])] if isinstance(s, tuple) else [m.U(s)] for s in states]
             o['idx'] = idx
         except common.MachineryError:
             raise
@@ -275,11 +302,12 @@ def run_history(inst, cf, ops, unique=False, snapshots=True, matcher=None):
         o['now'] = m.expand_now
         o['early'] = -1 if m.early_stop_idx is None else m.early_stop_idx
         try:
-            o['onlynodes'] = list(m.node_path_to_only_nodes(m.node_path)) if (m.lattice_best and m.node_path) else []
+            o['onlynodes'] = [m.U(n) for n in m.node_path_to_only_nodes(m.node_path)] if (m.lattice_best and m.node_path) else []
             o['onlynodes_exc'] = ''
         except Exception as ex:
             o['onlynodes'], o['onlynodes_exc'] = [], repr(ex)[:200]
         if snapshots:
             o['lat'] = proj_lattice(m)
+            o['dangling'] = dangling(m)
         out.append(o)
     return out, m
